@@ -164,7 +164,7 @@ func c02noSkip(c *Ctx, a *procAnchors, sinks []site) {
 		if facts.Before(r, func(j ssa.Instruction) bool { return j == ssa.Instruction(mu) }) {
 			return
 		}
-		fs := facts.At(r, nil)
+		fs := acceptFacts(r)
 		rejected := facts.Has(fs, func(at string) bool {
 			switch {
 			case strings.HasPrefix(at, "geth/crypto.Ecrecover(m.Hash,m.Signature)") && strings.HasSuffix(at, "#1 != nil"):
